@@ -1011,6 +1011,16 @@ class PandasModelBase(
             pass
         return jointype
 
+    # noinspection PyMethodMayBeStatic
+    def _any_key_missing(self, d, keys):
+        """
+        Vector marking the rows of d that have a missing value in at least one of the key columns.
+        """
+        res = d[keys[0]].isnull()
+        for k in keys[1:]:
+            res = numpy.logical_or(res, d[k].isnull())
+        return res
+
     def _natural_join_step(self, op, *, data_map):
         """
         Execute a natural join step, returning a data frame.
@@ -1041,16 +1051,42 @@ class PandasModelBase(
             on_b = [scratch_col]
             left[scratch_col] = 1
             right[scratch_col] = 1
+        how = self.standardize_join_code_(op.jointype)
+        unmatched_rows = []  # rows with a missing key: SQL never matches them (Pandas merge matches NaN to NaN)
+        if scratch_col is None:
+            left_key_missing = self._any_key_missing(left, on_a)
+            right_key_missing = self._any_key_missing(right, on_b)
+            if numpy.any(left_key_missing) or numpy.any(right_key_missing):
+                if how in ("left", "outer"):
+                    unmatched_rows.append(left.loc[left_key_missing, :])
+                if how in ("right", "outer"):
+                    merged_keys = {a for a, b in zip(on_a, on_b) if a == b}
+                    unmatched_rows.append(
+                        right.loc[right_key_missing, :].rename(
+                            columns={
+                                c: c + "_tmp_right_col"
+                                for c in common_cols
+                                if c not in merged_keys
+                            }
+                        )
+                    )
+                left = left.loc[numpy.logical_not(left_key_missing), :]
+                right = right.loc[numpy.logical_not(right_key_missing), :]
         # noinspection PyUnresolvedReferences
         res = self.pd.merge(
             left=left,
             right=right,
-            how=self.standardize_join_code_(op.jointype),
+            how=how,
             left_on=on_a,
             right_on=on_b,
             sort=False,
             suffixes=("", "_tmp_right_col"),
         )
+        unmatched_rows = [r for r in unmatched_rows if r.shape[0] > 0]
+        if len(unmatched_rows) > 0:
+            res = self.pd.concat(
+                [res] + unmatched_rows, axis=0, ignore_index=True, sort=False
+            )
         self.drop_indices(res)
         if scratch_col is not None:
             del res[scratch_col]
